@@ -171,8 +171,32 @@ func RunStep(t *testing.T, j job) (res stepResult) {
 		}
 		d := NewDriver(st)
 		m := NewModel()
+		// envOp handles environment actions that are not storage calls. "Remap": close the
+		// world and reopen the same directory with another storage-class -> store mapping.
+		envOp := func(op Op) (Res, bool) {
+			if op.Kind != "Remap" {
+				return Res{}, false
+			}
+			cfg := w.Cfg
+			cfg.Dir = w.Dir
+			cfg.ClassMap = parseKV(op.Get("map"))
+			if cfg.ClassMap == nil {
+				cfg.ClassMap = map[string]string{}
+			}
+			w.Close()
+			*w = *world.New(cfg)
+			d.S = w.Storage
+			if spec.Under != nil {
+				d.S = spec.Under(w)
+			}
+			m.Step++
+			return Res{}, true
+		}
 		for i, op := range j.Path {
 			time.Sleep(spec.Step)
+			if _, ok := envOp(op); ok {
+				continue
+			}
 			ri := d.Apply(op, m)
 			rm := m.Apply(op, &ri)
 			if i < len(j.Hints) {
@@ -199,8 +223,10 @@ func RunStep(t *testing.T, j job) (res stepResult) {
 			}
 			time.Sleep(spec.Step)
 			ctx.Op = *j.Op
-			ctx.ImplR = d.Apply(*j.Op, m)
-			ctx.ModelR = m.Apply(*j.Op, &ctx.ImplR)
+			if _, ok := envOp(*j.Op); !ok {
+				ctx.ImplR = d.Apply(*j.Op, m)
+				ctx.ModelR = m.Apply(*j.Op, &ctx.ImplR)
+			}
 			res.Res = ctx.ImplR
 			res.Diffs = append(res.Diffs, DiffRes(*j.Op, ctx.ModelR, ctx.ImplR)...)
 		}
@@ -431,6 +457,10 @@ func (s *Search) replayModel(st state) *Model {
 		var h *Res
 		if i < len(st.Hints) {
 			h = &st.Hints[i]
+		}
+		if op.Kind == "Remap" {
+			m.Step++
+			continue
 		}
 		m.Apply(op, h)
 	}
